@@ -8,6 +8,7 @@ import SmppVerif.Model.Packed
 import SmppVerif.Model.Time
 import SmppVerif.Model.Receipt
 import SmppVerif.Model.Split
+import SmppVerif.Model.Policy
 
 namespace SmppVerif.Driver
 open SmppVerif SmppVerif.Wire
@@ -55,6 +56,36 @@ def parseEnc (s : String) : Option Split.Enc :=
 def resParts : Except Exc (List (List Nat)) → String
   | .ok ps => "ok " ++ "|".intercalate (ps.map showHex)
   | .error e => showExc e
+
+def parseRat (s : String) : Option Rat :=
+  match s.splitOn "/" with
+  | [n] => n.toInt?.map fun i => (i : Rat)
+  | [n, d] =>
+    match n.toInt?, d.toNat? with
+    | some n, some d => if d = 0 then none else some ((n : Rat) / (d : Rat))
+    | _, _ => none
+  | _ => none
+
+def showRat (r : Rat) : String := s!"{r.num}/{r.den}"
+
+/-- back-off script: 'w' = wait (prints the delay), 'r' = reset -/
+def runBackoff (b : Policy.Backoff) : List Char → List String → Option (List String)
+  | [], acc => some acc.reverse
+  | 'w' :: cs, acc => let (b', d) := b.wait; runBackoff b' cs (toString d :: acc)
+  | 'r' :: cs, acc => runBackoff b.reset cs acc
+  | _, _ => none
+
+/-- throttle script: a<time> = allow_request at time, t = throttled(), n = not_throttled() -/
+def runThrottle (t : Policy.Throttle) : List String → List String → Option (List String)
+  | [], acc => some acc.reverse
+  | op :: ops, acc =>
+    if op = "t" then runThrottle t.throttled ops acc
+    else if op = "n" then runThrottle t.notThrottled ops acc
+    else if op.startsWith "a" then
+      match parseRat (op.drop 1).toString with
+      | some now => let (t', ok) := t.allow now; runThrottle t' ops ((if ok then "1" else "0") :: acc)
+      | none => none
+    else none
 
 def step (line : String) : String :=
   let ws := (line.trimAscii.toString.splitOn " ").filter (· ≠ "")
@@ -122,6 +153,36 @@ def step (line : String) : String :=
     match parseEnc e, r.toNat?, parseNats t with
     | some e, some r, some t => resParts (Split.splitSmsUdh e r t)
     | _, _, _ => "bad-op"
+  | ["seq.take", mn, mx, cur, k] =>
+    match mn.toNat?, mx.toNat?, cur.toNat?, k.toNat? with
+    | some mn, some mx, some cur, some k => "ok " ++ showNats (Policy.SeqGen.take k ⟨mn, mx, cur⟩)
+    | _, _, _, _ => "bad-op"
+  | ["seq.valid", n] =>
+    match n.toInt? with
+    | some n => (match Policy.assertValidSequence n with | .ok _ => "ok" | .error e => showExc e)
+    | none => "bad-op"
+  | ["bo.run", d, m, ops] =>
+    match d.toNat?, m.toNat? with
+    | some d, some m =>
+      (match runBackoff (Policy.Backoff.init d m) ops.toList [] with
+       | some out => "ok " ++ " ".intercalate out
+       | none => "bad-op")
+    | _, _ => "bad-op"
+  | "tb.run" :: rate :: t0 :: times =>
+    match parseRat rate, parseRat t0, times.mapM parseRat with
+    | some r, some t0, some ts =>
+      let rec go (b : Policy.Bucket) : List Rat → List String → List String
+        | [], acc => acc.reverse
+        | t :: ts, acc => let (b', p) := b.attempt t; go b' ts ((if p then "1" else "0") :: acc)
+      "ok " ++ " ".intercalate (go (Policy.Bucket.init r t0) ts [])
+    | _, _, _ => "bad-op"
+  | "th.run" :: period :: sample :: deny :: t0 :: ops =>
+    match parseRat period, parseRat sample, parseRat deny, parseRat t0 with
+    | some p, some s, some d, some t0 =>
+      (match runThrottle ⟨p, s, d, 0, 0, t0⟩ ops [] with
+       | some out => "ok " ++ " ".intercalate out
+       | none => "bad-op")
+    | _, _, _, _ => "bad-op"
   | _ => "bad-op"
 
 partial def loop (h : IO.FS.Stream) (out : IO.FS.Stream) : IO Unit := do
